@@ -1,3 +1,17 @@
 import Uflow.Props.C01
 open Uflow.Props.C01
 #print axioms C01_pidSub_lt
+#print axioms C01_receiveT_erase
+#print axioms C01_runT_erase
+#print axioms C01_runT_total
+#print axioms C01_log_is_receive_output
+#print axioms C01_reach
+#print axioms C01_base_tracks_adv
+#print axioms C01_delivered_in_window
+#print axioms C01_data_flag_only_from_accepted_datagram
+#print axioms C01_channel_ids_increase
+#print axioms C01_channel_ids_increase_idx
+#print axioms C01_channel_ids_increase_delivered
+#print axioms C01_delivered_behind_channel_base
+#print axioms C01_at_most_once
+#print axioms C01_at_most_once_idx
